@@ -25,9 +25,9 @@ META = {
     "text": (
         "PARTIAL (by design, DESIGN.md §5 C07). Proved in Lean for the model of MLIRLexer (xdsl/utils/mlir_lexer.py "
         "with the C07 repairs; every token regex hand-transcribed as a total matcher on code points that carry CPython's "
-        "isalpha/isnumeric/isspace bits): lex_progress — every token of every input consumes >= 1 code point, lies inside "
+        "isalpha/isnumeric/isspace bits; STRING_LIT/BYTES_LIT decided by strict UTF-8 validity of the unescaped bytes): lex_progress — every token of every input consumes >= 1 code point, lies inside "
         "the text, tokens are ordered and disjoint; lex_steps_le — the model's own count of code-point reads over the whole "
-        "run is <= 10n+7; lex_total / lexE_cases / lex_error_span — the token loop ends within n+1 calls with either an "
+        "run is <= 14n+7; lex_total / lexE_cases / lex_error_span — the token loop ends within n+1 calls with either an "
         "EOF-terminated stream or one of the six lexer ParseErrors whose span is non-empty and inside the text; "
         "lex_ignores_numeric_space — no decision depends on isnumeric/isspace (numbers start at ASCII digits only). The "
         "model is tied to /repo on every run by differential lexing (token kinds and spans, or error id and span) of "
@@ -417,6 +417,7 @@ GRAMMAR = ['"', '"', "\\", "\\", "(", ")", "{", "}", "[", "]", "<", ">", ",", ":
            "opaque", "sparse", "dense_resource", "strided", "complex", "tuple", "offset", "attributes", "to", "step", "iter_args",
            "ins", "outs", "private", "public", "nested", "unknown", "callsite", "fused", "at", "ceildiv", "floordiv", "mod",
            "symbol", "d0", "s0", "x4", "4x", "?x", "*x", "x?", '"x"', '"\\', '"\\00"', '"\\ff"', '"\\n"', '""', '"a.b"',
+           '"\\C3\\A9"', '"é\\n"', '"\\E2\\82"', '"\\ED\\A0\\80"', "\\C3", "\\A9",
            '"test.op"', '"builtin.module"', "func.func", "builtin.module", "arith.constant", "scf.for", "() -> ()", ": i32",
            "{a = 1}", "<{a = 1}>", "({})", "[^bb0]", "(%0)", "loc(unknown)", 'loc("f":1:1)']
 
@@ -490,7 +491,8 @@ def token_samples() -> dict[str, list[str]]:
     samples["FLOAT_LIT"] = ["1.0", "1.", "0.5e10", "1.e-3", "123456789.123456789e300", "1.0E+400"]
     samples["INTEGER_LIT"] = ["0", "1", "2", "42", "0x1F", "0xdeadbeef", "18446744073709551616", "007", "9" * 30]
     samples["STRING_LIT"] = ['"a"', '""', '"\\n"', '"\\00"', '"a b"', '"é"', '"test.op"', '"\\\\"', '"\\""', '"0x00"', '"0xZZ"']
-    samples["BYTES_LIT"] = ['"\\ff"', '"\\80a"', '"é\\n"']
+    samples["STRING_LIT"] += ['"é\\n"', '"\\C3\\A9"', '"\\F0\\9F\\98\\80"']
+    samples["BYTES_LIT"] = ['"\\ff"', '"\\80a"', '"\\C3"', '"\\ED\\A0\\80"', '"é\\C3"']
     return samples
 
 
@@ -573,7 +575,10 @@ def sweep_cases(rng, quick: bool):
 
 LEX_ALPHA = list('"\\\n\v\f\t /.-{#}@!^%>x0123456789abefABEFxX_$+-:,()[]<>=*?|') + [
     "é", "²", "٣", "́", "\0", "\xa0", "\x1c", '"', '"', "\\", "\\n", "\\00", "\\zz", "//", "...", "->", "{-#", "#-}",
-    "0x", "1e+5", "1.", '@"', "\ud800", "λ", " "]
+    "0x", "1e+5", "1.", '@"', "\ud800", "λ", " ",
+    # escapes whose bytes are / are not valid UTF-8 (STRING_LIT vs BYTES_LIT since xdsl 3ffc35d)
+    "\\C3", "\\A9", "\\C3\\A9", "\\E2\\82\\AC", "\\F0\\9F\\98\\80", "\\ED\\A0\\80", "\\C0\\80", "\\E0\\80\\80",
+    "\\F4\\90\\80\\80", "\\F4\\8F\\BF\\BF", "\\ff", "\\80", "\\t", '\\"', "\\\\", "€", "😀"]
 
 
 def nesting_depth(text: str) -> int:
@@ -942,7 +947,7 @@ def run_correspondence(ctx: core.Ctx, ex: Explorer) -> None:
         w = l.split()
         if len(w) == 3 and w[0] == "steps":
             s, n = int(w[1]), int(w[2])
-            if s > 10 * n + 7:
+            if s > 14 * n + 7:
                 ctx.mismatch("theorem:lex_steps_le", {"steps": s, "n": n}, None, l, "model step count above the proved bound")
             worst = max(worst, s / (n + 1))
     ctx.extra["model_steps_per_codepoint_max"] = round(worst, 3)
@@ -1013,7 +1018,8 @@ def run(ctx: core.Ctx) -> None:
         probes = [("module", '"' + "a" * 22), ("module", "{a = ²}"), ("module", '"test.op"() {a = ²} : () -> ()'),
                   ("module", '"test.op"() {a = ٣} : () -> ()'), ("attr", "½"), ("module", '@"' + "b" * 22),
                   ("module", '"test.op"() ({ ^0: }) : () -> ()'), ("module", '"test.op"() ({ "test.op"()[^1] : () -> () ^1: }) : () -> ()'),
-                  ("module", "{-# external_resources: { a: { b: \"0x00\" } } #-}"), ("module", ""), ("attr", ""), ("type", "")]
+                  ("module", "{-# external_resources: { a: { b: \"0x00\" } } #-}"), ("module", ""), ("attr", ""), ("type", ""),
+                  ("attr", '"é\\n"'), ("attr", '"\\C3"'), ("attr", '"\\C3\\A9"'), ("attr", '@"\\ED\\A0\\80"')]
         for entry, t in probes:
             ex.parse("probe", entry, True, t)
             ex.lex("probe", t)
